@@ -145,6 +145,21 @@ class Forest(object):
                 except Exception as e:
                     a.raised = e
                 return a
+            if k == 'assign_existing':
+                # an element that is attached somewhere (possibly to this very parent) assigned by name or by index
+                parent = self.resolve(op['parent'], True)
+                child = self.resolve(op['child'])
+                if child.parent is None or child is parent or self._is_ancestor(child, parent) or child in self.msgs or not child.name:
+                    return Applied('skipped')
+                a = Applied('assign_existing:%s:reattach' % op['how'], parent, [child])
+                try:
+                    if op['how'] == 'name':
+                        setattr(parent, child.name, child)
+                    else:
+                        getattr(parent, child.name)[op['i']] = child
+                except Exception as e:
+                    a.raised = e
+                return a
             if k == 'reattach':
                 parent = self.resolve(op['parent'], True)
                 child = self.resolve(op['child'])
@@ -255,6 +270,19 @@ class Forest(object):
                     else:
                         obj = ['a', 'x' * 300, 'a^b^c~d', 'QQQ|1'][op['child'] % 4]
                     setattr(cur, name, obj)
+                except Exception as e:
+                    a.raised = e
+                return a
+            if k == 'assign_dt':
+                parent = self.resolve(op['parent'], True)
+                names = self.child_names(parent)
+                if not names or type(parent).__name__ in ('Message', 'Group', 'SubComponent'):
+                    return Applied('skipped')
+                name = names[op['k'] % len(names)]
+                cls = T.lib(parent.version).BASE_DATATYPES.get('ST')
+                a = Applied('assign_dt', parent)
+                try:
+                    setattr(parent, name, cls(['d1', 'd2', 'x' * 300][op['val_k'] % 3]))
                 except Exception as e:
                     a.raised = e
                 return a
@@ -547,6 +575,8 @@ def op_strategy():
         st.fixed_dictionaries({'op': st.just('assign'), 'parent': SHALLOW, 'child': st.integers(0, 9)}),
         st.fixed_dictionaries({'op': st.just('assign_idx'), 'parent': SHALLOW, 'child': st.integers(0, 9), 'i': st.integers(-1, 2)}),
         st.fixed_dictionaries({'op': st.just('reattach'), 'parent': SHALLOW, 'child': REF}),
+        st.fixed_dictionaries({'op': st.just('assign_existing'), 'parent': NEAR, 'child': st.fixed_dictionaries({'r': st.integers(0, 2), 'p': st.lists(st.integers(0, 3), min_size=1, max_size=2)}),
+                               'how': st.sampled_from(['name', 'index']), 'i': st.integers(0, 1)}),
         st.fixed_dictionaries({'op': st.just('add_x'), 'parent': SHALLOW, 'k': st.integers(0, 30), 'foreign': st.sampled_from([False, False, False, True])}),
         st.fixed_dictionaries({'op': st.just('add_x'), 'parent': SHALLOW, 'k': st.integers(0, 30), 'foreign': st.just(False)}),
         st.fixed_dictionaries({'op': st.just('assign_text'), 'parent': NEAR, 'k': st.integers(0, 3), 'val_k': st.integers(0, 3),
@@ -554,6 +584,7 @@ def op_strategy():
         st.fixed_dictionaries({'op': st.just('assign_text'), 'parent': NEAR, 'k': st.integers(0, 3), 'val_k': st.integers(0, 3),
                                'i': st.one_of(st.none(), st.integers(-1, 2))}),
         st.fixed_dictionaries({'op': st.just('add_x_twice'), 'parent': NEAR, 'k': st.integers(0, 3)}),
+        st.fixed_dictionaries({'op': st.just('assign_dt'), 'parent': SHALLOW, 'k': st.integers(0, 12), 'val_k': st.integers(0, 2)}),
         st.fixed_dictionaries({'op': st.just('assign_copy'), 'parent': NEAR, 'k': st.integers(0, 3), 'i': st.integers(-1, 2),
                                'how': st.sampled_from(['name', 'index', 'index', 'add']), 'mismatch': st.sampled_from([0, 1, 1, 2])}),
         st.fixed_dictionaries({'op': st.just('assign_copy'), 'parent': NEAR, 'k': st.integers(0, 3), 'i': st.integers(-1, 2),
@@ -589,6 +620,16 @@ def histories(draw, cells, max_ops):
     cell = draw(st.sampled_from(cells))
     drawn = draw(st.lists(op_strategy(), min_size=1, max_size=max_ops))
     ops = []
+    if draw(st.integers(0, 5)) == 0:
+        # scenario seed: the same kind of child under two parents, then one parent's child assigned into the other parent's
+        # occupied slot, and a child assigned over its own sibling
+        K = draw(st.integers(0, 5))
+        pa = draw(st.sampled_from([[0], [1]]))
+        ops += [{'op': 'add_x', 'parent': {'r': 0, 'p': pa}, 'k': K, 'foreign': False},
+                {'op': 'add_x', 'parent': {'r': 0, 'p': pa}, 'k': K, 'foreign': False},
+                {'op': 'add_x', 'parent': {'r': 2 if draw(st.booleans()) else 0, 'p': pa}, 'k': K, 'foreign': False},
+                {'op': 'assign_existing', 'parent': {'r': 0, 'p': pa}, 'child': {'r': draw(st.sampled_from([0, 2])), 'p': pa + [draw(st.integers(0, 9))]},
+                 'how': draw(st.sampled_from(['name', 'index'])), 'i': draw(st.integers(0, 1))}]
     if draw(st.integers(0, 3)) == 0:
         # scenario seed: two (or three) same-named siblings with different content, then a replacement of one that is
         # not the last - accepted or refused (other level / version); random operations follow
